@@ -1,12 +1,12 @@
 package main
 
 import (
-	"strconv"
 	"context"
 	"encoding/hex"
 	"encoding/json"
 	"fmt"
 	"sort"
+	"strconv"
 	"strings"
 	"sync"
 	"time"
@@ -28,16 +28,16 @@ import (
 func init() { register("C02", runC02) }
 
 type c02Case struct {
-	Resp     string `json:"response"`
-	BodyHex  string `json:"body_hex"`
-	Family   string `json:"family"`
-	Cuts     []int  `json:"packet_cuts"`          // body offsets where a new packet starts
-	EmptyAt  []int  `json:"empty_packets_at"`     // body offsets at which a header-only packet (no EOM) is inserted
-	EmptyEOM bool   `json:"header_only_eom"`      // the EOM flag travels on a trailing header-only packet
-	EmptyTail int   `json:"header_only_packets_before_the_eom_packet,omitempty"` // with EmptyEOM: further header-only packets (no EOM) directly before it
-	Reads    []int  `json:"read_cuts,omitempty"`  // stream offsets where a new read() result starts; nil+ViaReader = one read
-	Via      string `json:"via"`                  // "writepacket" (Channel.WritePacket directly) | "reader" (transport + reader goroutine)
-	Bounds   []int  `json:"package_bounds"`
+	Resp      string `json:"response"`
+	BodyHex   string `json:"body_hex"`
+	Family    string `json:"family"`
+	Cuts      []int  `json:"packet_cuts"`                                         // body offsets where a new packet starts
+	EmptyAt   []int  `json:"empty_packets_at"`                                    // body offsets at which a header-only packet (no EOM) is inserted
+	EmptyEOM  bool   `json:"header_only_eom"`                                     // the EOM flag travels on a trailing header-only packet
+	EmptyTail int    `json:"header_only_packets_before_the_eom_packet,omitempty"` // with EmptyEOM: further header-only packets (no EOM) directly before it
+	Reads     []int  `json:"read_cuts,omitempty"`                                 // stream offsets where a new read() result starts; nil+ViaReader = one read
+	Via       string `json:"via"`                                                 // "writepacket" (Channel.WritePacket directly) | "reader" (transport + reader goroutine)
+	Bounds    []int  `json:"package_bounds"`
 	// Prelude: a complete earlier response (one packet) is delivered and
 	// consumed on the same channel first; the response under test is then
 	// the second one on that channel.
@@ -116,7 +116,7 @@ func c02Packets(body []byte, cuts, emptyAt []int, emptyEOM bool) [][]byte {
 }
 
 type c02Out struct {
-	d       delivered
+	d        delivered
 	watchdog bool
 }
 
